@@ -92,6 +92,7 @@ def main(argv):
                 assumed_contracts.append('%s [%s]: %s' % (q, bname, con.notes or 'assumed'))
         for ob in eng.obls:
             ob.bundle = bname
+            ob.logic = getattr(D, 'smt_logic', 'ALL')
         all_obls += eng.obls
         functions.update({'%s [%s]' % (q, bname): v for q, v in eng.functions_run.items()})
         unsupported += [(bname,) + u for u in eng.unsupported]
